@@ -1,0 +1,39 @@
+//go:build verif
+
+// Package verifbridge (build tag `verif`) re-exports the internal packages an
+// external verification harness needs: Go forbids importing …/internal/… from
+// another module. Nothing here is compiled without the tag.
+package verifbridge
+
+import (
+	"github.com/z7zmey/php-parser/internal/php5"
+	"github.com/z7zmey/php-parser/internal/php7"
+	"github.com/z7zmey/php-parser/internal/position"
+	"github.com/z7zmey/php-parser/internal/scanner"
+	"github.com/z7zmey/php-parser/pkg/ast"
+	"github.com/z7zmey/php-parser/pkg/conf"
+)
+
+type Lexer = scanner.Lexer
+type LexerState = scanner.VerifState
+type Builder = position.Builder
+
+func NewLexer(data []byte, config conf.Config) *Lexer { return scanner.NewLexer(data, config) }
+
+func NewLexerState(data []byte, config conf.Config, st LexerState) *Lexer {
+	return scanner.VerifNewLexer(data, config, st)
+}
+
+func NewBuilder() *Builder { return position.NewBuilder() }
+
+func IsValidVarNameStart(r byte) bool { return scanner.VerifIsValidVarNameStart(r) }
+func IsValidVarName(r byte) bool      { return scanner.VerifIsValidVarName(r) }
+
+// Parser is the common surface of the two generated parsers.
+type Parser interface {
+	Parse() int
+	GetRootNode() ast.Vertex
+}
+
+func NewPhp5Parser(lexer *Lexer, config conf.Config) Parser { return php5.NewParser(lexer, config) }
+func NewPhp7Parser(lexer *Lexer, config conf.Config) Parser { return php7.NewParser(lexer, config) }
